@@ -1004,10 +1004,26 @@ def rule_r13(ctx) -> List[R.Inst]:
     ok_b = any(isinstance(n, ast.Assign) and isinstance(n.targets[0], ast.Subscript) and copies_per_element(n.value) for n in ast.walk(fn.node)) or \
         any(isinstance(n, ast.DictComp) and copies_per_element(n.value) and
             any(isinstance(x, ast.Call) and call_name(x) == "repeat" for x in ast.walk(n.value)) for n in ast.walk(fn.node))   # column-wise: {name: Series([copy(v) for v in one.repeat(n)])}
-    insts.append(R.ok(rid, "empty", file, line, idiom="object cells are copied per row after the repeat") if (ok_b or not rep) else
-                 R.viol(rid, "empty", file, line,
-                        f"empty(n) repeats the single default row: all n cells of an object column are the same Python object ({what}); "
-                        f"giving one note a key sound gives it to all of them", construct="empty: index.repeat(rows) without per-row copies"))
+    if not ok_b:
+        # the copy goes through a local: column = Series([deepcopy(v) for v in column]); columns[name] = column<...>
+        for n in ast.walk(fn.node):
+            if isinstance(n, ast.Assign) and isinstance(n.targets[0], ast.Name) and copies_per_element(n.value):
+                v_ = n.targets[0].id
+                ok_b = ok_b or any(isinstance(m, ast.Assign) and isinstance(m.targets[0], ast.Subscript) and
+                                   any(isinstance(x, ast.Name) and x.id == v_ for x in ast.walk(m.value)) for m in ast.walk(fn.node))
+    # a guard that selects the columns to copy by dtype must select the object columns
+    bad_guard = [t for t in ast.walk(fn.node) if isinstance(t, ast.Compare) and "dtype" in unparse(t.left) and len(t.ops) == 1 and
+                 unparse(t.comparators[0]) in ("object", "'object'", "'O'", "np.object_") and not isinstance(t.ops[0], (ast.Eq, ast.Is))]
+    if ok_b and rep and bad_guard:
+        insts.append(R.viol(rid, "empty", file, bad_guard[0].lineno,
+                            f"the per-row copy is applied to the columns that are NOT object columns ({what}): the object cells stay shared",
+                            construct=unparse(bad_guard[0])))
+        ok_b = None
+    if ok_b is not None:
+        insts.append(R.ok(rid, "empty", file, line, idiom="object cells are copied per row after the repeat") if (ok_b or not rep) else
+                     R.viol(rid, "empty", file, line,
+                            f"empty(n) repeats the single default row: all n cells of an object column are the same Python object ({what}); "
+                            f"giving one note a key sound gives it to all of them", construct="empty: index.repeat(rows) without per-row copies"))
     # (c) from_dict fill
     fn = M.nfn(TL + ".from_dict", subst=True)      # a list of copies named before it is stored is put back into the store
     file, line = fn_loc(M, TL + ".from_dict")
